@@ -62,7 +62,7 @@ func TestC10_RealVerifier(t *testing.T) {
 		trusted = pki.NewChain(pki.ChainOpts{Name: "c10 trusted"})
 		foreign = pki.NewChain(pki.ChainOpts{Name: "c10 foreign"})
 	})
-	rp.Check(t, 1600, 40000, func(rt *rapid.T) {
+	rp.Check(t, 1600, 300000, func(rt *rapid.T) {
 		ctx := context.Background()
 		store := memory.New()
 		art, err := oras.PackManifest(ctx, store, oras.PackManifestVersion1_1, "application/vnd.verif.c10", oras.PackManifestOptions{
